@@ -198,8 +198,10 @@ def task_pure(ctx: Ctx) -> None:
             while isinstance(base, (ast.Subscript, ast.Attribute)):
                 base = base.value
             # the write target of the task body itself is WRITE-REGION-1's business
-            if d.qual == task_body(ctx).qual and "open()" in unparse(tgt):
-                continue
+            if d.qual in {F.qual for F, _, _ in region_scopes(ctx)} and isinstance(tgt, (ast.Name, ast.Call)):
+                rs_t = fl.roots(tgt, at)
+                if rs_t and all(r.startswith(("call:", "mcall(")) and r.endswith(".open") for r in rs_t):
+                    continue
             if isinstance(base, ast.Name) and base.id in ("self",):
                 # object-local state of helper classes used inside a task (indexers, adaptors)
                 if d.name in ("__init__", "__post_init__"):
@@ -254,8 +256,17 @@ def task_rng(ctx: Ctx) -> None:
     rs = kwarg(c, "root_seed")
     ok = rs is not None
     if ok:
-        roots = fl.roots(rs, cfg.node_of(c))
-        ok = all(r.startswith("call:random.") or r.startswith("param:") for r in roots)
+        roots = set(fl.roots(rs, cfg.node_of(c)))
+        # a private helper of the module that produces the seed: what it returns
+        for r in sorted(roots):
+            h = repo.defs.get(r[5:]) if r.startswith("call:") else None
+            if h is not None and h.is_func and h.module is rnd.module and h.name.startswith("_"):
+                hfl, hcfg = flow_of(repo, h), cfg_of(h)
+                roots.discard(r)
+                for ret in hcfg.returns():
+                    if ret.stmt.value is not None:
+                        roots |= hfl.roots(ret.stmt.value, ret.id)
+        ok = all(r.startswith("call:random.") or r.startswith("param:") or r.startswith("call:operator.index") for r in roots)
     ctx.ob(rnd, c, ok, "the root seed is drawn at build time and passed as a keyword captured in the operation (re-execution and pickling reproduce it)", sel="rng:root-seed")
     nb, ch = kwarg(c, "numblocks"), kwarg(c, "chunks")
     ok = False
@@ -283,6 +294,29 @@ def _is_coords(fl, e: ast.AST, at: int, coords: str) -> bool:
     return False
 
 
+def region_scopes(ctx: Ctx) -> list[tuple[Def, dict[str, ast.AST], ast.Call | None]]:
+    """The task body, and private pieces of it (one level: `_write_result(result, proxy,
+    coords)`), each with the actual arguments the task body passes."""
+    repo = ctx.repo
+    d = task_body(ctx)
+    scopes: list[tuple[Def, dict[str, ast.AST], ast.Call | None]] = [(d, {}, None)]
+    for c in d.own_nodes():
+        if isinstance(c, ast.Call):
+            for t in repo.resolve_call(c, d, d.module):
+                if t.kind == "def" and t.ref.is_func and t.ref.module is d.module and t.ref.name.startswith("_") and t.ref is not d:
+                    h: Def = t.ref
+                    act: dict[str, ast.AST] = {}
+                    pos = h.positional_params
+                    for i, a in enumerate(c.args):
+                        if not isinstance(a, ast.Starred) and i < len(pos):
+                            act[pos[i]] = a
+                    for k in c.keywords:
+                        if k.arg is not None:
+                            act[k.arg] = k.value
+                    scopes.append((h, act, c))
+    return scopes
+
+
 @rule("WRITE-REGION-1", props=["C05", "C06", "C10"], floor=4)
 def write_region(ctx: Ctx) -> None:
     """the task body stores only into its own output block: target reached from writes_map,
@@ -292,42 +326,82 @@ def write_region(ctx: Ctx) -> None:
     d = task_body(ctx)
     fl, cfg = flow_of(repo, d), cfg_of(d)
     coords = d.params[0]
+
+    def opened(F: Def, flF, e: ast.AST, at: int) -> ast.AST | None:
+        """the `<proxy>.open()` expression a store receiver is (directly or through a local)"""
+        if "open()" in unparse(e):
+            return e
+        if isinstance(e, ast.Name):
+            vs = [s.value for s in flF.rdefs(e.id, at)]
+            if vs and all(v is not None and isinstance(v, ast.Call) and isinstance(v.func, ast.Attribute) and v.func.attr == "open" for v in vs):
+                return vs[0]
+        return None
+
+    scopes = region_scopes(ctx)
     stores = []
-    for n in d.own_nodes():
-        if isinstance(n, (ast.Assign, ast.AugAssign)):
-            for t in n.targets if isinstance(n, ast.Assign) else [n.target]:
-                if isinstance(t, ast.Subscript) and "open()" in unparse(t.value):
-                    stores.append((n, t.value, t.slice, isinstance(n, ast.AugAssign)))
-        elif isinstance(n, ast.Call) and isinstance(n.func, ast.Attribute) and n.func.attr.startswith("set_") and n.func.attr.endswith("_selection"):
-            stores.append((n, n.func.value, n.args[0] if n.args else None, False))
+    for F, act, call in scopes:
+        flF, cfgF = flow_of(repo, F), cfg_of(F)
+        for n in F.own_nodes():
+            if isinstance(n, (ast.Assign, ast.AugAssign)):
+                for t in n.targets if isinstance(n, ast.Assign) else [n.target]:
+                    if isinstance(t, ast.Subscript) and cfgF.has(n):
+                        recv = opened(F, flF, t.value, cfgF.node_of(n))
+                        if recv is not None:
+                            stores.append((F, act, call, n, recv, t.slice, isinstance(n, ast.AugAssign)))
+            elif isinstance(n, ast.Call) and isinstance(n.func, ast.Attribute) and n.func.attr.startswith("set_") and n.func.attr.endswith("_selection") and cfgF.has(n):
+                recv = opened(F, flF, n.func.value, cfgF.node_of(n)) or n.func.value
+                stores.append((F, act, call, n, recv, n.args[0] if n.args else None, False))
     ctx.need(len(stores) >= 2, "store sites of the task body not found")
-    for n, recv, key, aug in stores:
-        at = cfg.node_of(n)
+    at_d = lambda x: cfg.node_of(x)
+
+    def coords_here(F, flF, act, call, e, at) -> bool:
+        """`e` (in F) is the task's coordinates"""
+        if F is d:
+            return _is_coords(fl, e, at, coords)
+        if isinstance(e, ast.Name) and e.id in F.params and e.id in act and all(s.kind == "param" for s in flF.rdefs(e.id, at)):
+            return _is_coords(fl, act[e.id], at_d(call), coords)
+        return False
+
+    for F, act, call, n, recv, key, aug in stores:
+        flF, cfgF = flow_of(repo, F), cfg_of(F)
+        at = cfgF.node_of(n)
         obj = recv.func.value if isinstance(recv, ast.Call) and isinstance(recv.func, ast.Attribute) else recv
-        rs = fl.roots(obj, at)
+        fl.copies_transparent = flF.copies_transparent = True
+        rs = flF.roots(obj, at)
+        if F is not d:
+            # roots that are parameters of the piece are what the task body passed
+            mapped: set[str] = set()
+            for r in rs:
+                pn = r[len("param:"):].split(".")[0] if r.startswith("param:") else None
+                if pn is not None and pn in act:
+                    mapped |= fl.roots(act[pn], at_d(call))
+                else:
+                    mapped.add(r)
+            rs = mapped
+        fl.copies_transparent = flF.copies_transparent = False
         from_writes = bool(rs) and all("writes_map" in r for r in rs)
-        ctx.ob(d, n, from_writes and not any("reads_map" in r for r in rs), f"store target `{unparse(recv, 30)}` is reached from config.writes_map (never from an input)", sel=f"region:target:{unparse(recv, 20)}:{type(n).__name__}")
-        ctx.ob(d, n, not aug, "stores are plain assignments (no read-modify-write of the stored chunk)", sel=f"region:plain:{type(n).__name__}")
+        ctx.ob(F, n, from_writes and not any("reads_map" in r for r in rs), f"store target `{unparse(recv, 30)}` is reached from config.writes_map (never from an input)", sel=f"region:target:{unparse(recv, 20)}:{type(n).__name__}")
+        ctx.ob(F, n, not aug, "stores are plain assignments (no read-modify-write of the stored chunk)", sel=f"region:plain:{type(n).__name__}")
         okk = False
         why = "region is not computed by key_to_slices"
         if isinstance(key, ast.Name):
-            for s in fl.rdefs(key.id, at):
+            for s in flF.rdefs(key.id, at):
                 v = s.value
-                if isinstance(v, ast.Call) and f"{A.PBW}.key_to_slices" in repo.callee_quals(v, d):
+                if isinstance(v, ast.Call) and f"{A.PBW}.key_to_slices" in repo.callee_quals(v, F):
                     a = v.args
-                    t0 = {coords} if a and _is_coords(fl, a[0], s.node, coords) else set()
-                    proxy = None
                     pb = recv
                     while isinstance(pb, (ast.Call, ast.Attribute)):
                         pb = pb.func if isinstance(pb, ast.Call) else pb.value
                     proxy = pb.id if isinstance(pb, ast.Name) else None
-                    okk = len(a) == 3 and coords in t0 and unparse(a[1]) == f"{proxy}.array" and unparse(a[2]) == f"{proxy}.chunks"
+                    okk = len(a) == 3 and coords_here(F, flF, act, call, a[0], s.node) and unparse(a[1]) == f"{proxy}.array" and unparse(a[2]) == f"{proxy}.chunks"
                     why = f"found `{unparse(v, 70)}`"
-        ctx.ob(d, n, okk, "the written region is key_to_slices(<task coordinates>, proxy.array, proxy.chunks) of the same write proxy" + ("" if okk else f" — {why}"), sel=f"region:key:{type(n).__name__}")
+        ctx.ob(F, n, okk, "the written region is key_to_slices(<task coordinates>, proxy.array, proxy.chunks) of the same write proxy" + ("" if okk else f" — {why}"), sel=f"region:key:{type(n).__name__}")
     loads = [n for n in d.own_nodes() if isinstance(n, ast.Subscript) and isinstance(n.ctx, ast.Load) and "open()" in unparse(n.value) and "write" in unparse(n.value)]
     ctx.ob(d, loads[0] if loads else None, not loads, "the task never reads its own write target", sel="region:no-read-back")
     # results are zipped with the write proxies in writes_map order
-    loops = [n for n in cfg.stmts(ast.For) if "writes_map" in unparse(n.stmt.iter)]
+    fl.copies_transparent = True
+    loops = [n for n in cfg.stmts(ast.For) if "writes_map" in unparse(n.stmt.iter) or any("writes_map" in r for x in (n.stmt.iter.args if isinstance(n.stmt.iter, ast.Call) else []) for r in fl.roots(x, n.id))]
+    fl.copies_transparent = False
     ok = bool(loops) and all(isinstance(n.stmt.iter, ast.Call) and unparse(n.stmt.iter.func) == "zip" for n in loops)
     ctx.ob(d, loops[0].stmt if loops else None, ok, "each result is paired positionally with one write proxy", sel="region:zip")
     # reads go through reads_map by key name
@@ -898,7 +972,16 @@ def pickle_pair(ctx: Ctx) -> None:
             direct = any(isinstance(x, ast.Name) and x.id == batch for x in ast.walk(pos[1]))
             ok_in = bool(ev) and not direct
             ctx.ob(inner, c, ok_in, f"the input shipped with a task is one element of `{batch}`" + ("" if ok_in else f" — `{unparse(pos[1], 40)}` is not the per-task element (the whole batch, or something else, is sent to every task)"), sel="pickle:input-element")
-            fn_t = fl.taint(pos[0], at)
+            fn_t = set(fl.taint(pos[0], at))
+            # a closure variable the factory computed (e.g. the function pickled once, outside
+            # the per-batch function) is what the factory derived it from
+            ofl, ocfg = flow_of(repo, outer), cfg_of(outer)
+            for x in sorted(fn_t):
+                nm = x[5:] if x.startswith("free:") else None
+                if nm is not None and nm not in outer.params:
+                    for s_ in ofl.rdefs(nm, ocfg.exit):
+                        if s_.value is not None:
+                            fn_t |= {f"free:{y}" if y in outer.params else y for y in ofl.taint(s_.value, s_.node)}
             ok_f = any(x == f"free:{outer.params[1]}" or x.endswith(f":{outer.params[1]}") for x in fn_t) if len(outer.params) > 1 else False
             ctx.ob(inner, c, ok_f, f"the function shipped with a task is the factory's `{outer.params[1] if len(outer.params) > 1 else '?'}` argument (found taint {sorted(fn_t)[:3]})", sel="pickle:function")
         for k in [k for k in c.keywords if k.arg is None]:
